@@ -489,6 +489,7 @@ func validateGuard(fset *token.FileSet, fd *ast.FuncDecl) []string {
 func main() {
 	repo := flag.String("repo", "/repo", "repository root")
 	out := flag.String("out", "", "output directory (OLP/Gen)")
+	survey := flag.Bool("survey", false, "list the functions the whole-function translator accepts and exit")
 	flag.Parse()
 	self, _ := ioutil.ReadFile(os.Args[0])
 	sh := sha256.Sum256(self)
@@ -1054,6 +1055,12 @@ func main() {
 	sb.WriteString(norm("app.App.Prepare").lean("prepareSetters", "String", str))
 	sb.WriteString("end OLP.Gen\n")
 	os.MkdirAll(*out, 0755)
+	if *survey {
+		for _, l := range surveyFuncs(declByName, pkgByName) {
+			fmt.Println(l)
+		}
+		return
+	}
 	writeGenerated := func(name, content string) {
 		tmp := filepath.Join(*out, "."+name+".tmp")
 		if err := ioutil.WriteFile(tmp, []byte(content), 0644); err == nil {
